@@ -1278,6 +1278,47 @@ func layGenPipe(c *Ctx, i int) {
 		runes += n
 		c.Stat("pipeline.string_length", map[bool]string{true: fmt.Sprint(n), false: bucket(n)}[n <= 2])
 	}
+	// history dependence through the Layouter's buffer: an earlier text in which a ligature forms with
+	// 1-3 glyphs after it, then a text with MORE glyphs than that earlier result
+	letters := func(n int, from []rune) string {
+		t := make([]string, n)
+		for j := range t {
+			t[j] = fmt.Sprint(int(from[(j+r.Intn(2))%len(from)]))
+		}
+		return strings.Join(t, ".")
+	}
+	if strings.HasPrefix(kind, "gsub 4.1") && r.Chance(2, 3) {
+		lig := Pick(r, []string{"97.98.99", "97.98"}) // a b c -> L, a b -> L+1
+		pre := ""
+		if r.Bool() {
+			pre = letters(r.Range(1, 2), []rune("defg")) + "."
+		}
+		first := pre + lig + "." + letters(r.Range(1, 3), []rune("defgh"))
+		texts = []string{first, letters(strings.Count(first, ".")+r.Range(1, 4), []rune("defghijk"))}
+		if r.Bool() {
+			texts = append(texts, letters(r.Range(1, 12), []rune("abcdefgh")))
+		}
+		nTexts = len(texts)
+		c.Stat("pipeline.history", "ligature with tail, then a longer text")
+	} else if nTexts >= 1 && r.Chance(1, 3) {
+		longest := 0
+		for _, t := range texts {
+			if t != "" && strings.Count(t, ".")+1 > longest {
+				longest = strings.Count(t, ".") + 1
+			}
+		}
+		texts = append(texts, letters(longest+r.Range(1, 4), []rune("abcdefghijkl")))
+		nTexts++
+		c.Stat("pipeline.history", "last text longer than all earlier ones")
+	} else {
+		c.Stat("pipeline.history", "random lengths")
+	}
+	runes = 0
+	for _, t := range texts {
+		if t != "" {
+			runes += strings.Count(t, ".") + 1
+		}
+	}
 	ga, ok1 := layTabArgs("g", gsub, gd, gdNil, lang)
 	pa, ok2 := layTabArgs("p", gpos, gd, gdNil, lang)
 	gdArg, ok3 := layPayload(nil, gd, gdNil)
